@@ -56,19 +56,21 @@ def all_levels_ok(x):
 
 
 def nested_containers(x, out=None):
+    """Every mutable object below *x*: containers, lists and sets, also the
+    ones held inside tuples and quantities."""
     from pvl.collections import OrderedMultiDict
 
     out = [] if out is None else out
     if isinstance(x, OrderedMultiDict):
-        for _, v in list(x):
-            if isinstance(v, (OrderedMultiDict, list)):
-                out.append(v)
-            nested_containers(v, out)
-    elif isinstance(x, list):
-        for v in x:
-            if isinstance(v, (OrderedMultiDict, list)):
-                out.append(v)
-            nested_containers(v, out)
+        children = [v for _, v in list(x)]
+    elif isinstance(x, (list, tuple)):
+        children = list(x)
+    else:
+        children = []
+    for v in children:
+        if isinstance(v, (OrderedMultiDict, list, set)):
+            out.append(v)
+        nested_containers(v, out)
     return out
 
 
@@ -88,6 +90,12 @@ def gen_container(rng, col, depth=0, top=True):
             v = frozenset((1, 2)) if rng.random() < 0.5 else {3, "s"}
         elif r < 0.65:
             v = col.Quantity(1.5, "m")
+        elif r < 0.72:
+            # hashable-looking wrappers around mutable values
+            v = rng.choice((lambda: col.Quantity([1, 2, 3], "nm"),
+                            lambda: col.Quantity({1, 2}, "m"),
+                            lambda: (1, [2, 3]),
+                            lambda: [col.Quantity([4, [5]], "s")]))()
         else:
             v = gen_container(rng, col, depth + 1, top=False)
         c.append(rng.choice(keys), v)
@@ -159,6 +167,11 @@ def mutate(rng, target, deep, log):
         if isinstance(o, list):
             o.append("mutated")
             log.append(("list.append",))
+            changed = True
+            continue
+        if isinstance(o, set):
+            o.add("mutated")
+            log.append(("set.add",))
             changed = True
             continue
         for _ in range(rng.randint(1, 4)):
@@ -257,7 +270,7 @@ def one_case(rec, rng, col, m, mech, wit):
 def shard(i, n, tier, seed, rec, hb):
     pvl = common.import_pvl()
     col = pvl.collections
-    total = 320 if tier == "quick" else 150000
+    total = 2400 if tier == "quick" else 150000
     for j in range(i, total, n):
         hb.beat()
         rng = random.Random(f"C11-{seed}-{j}")
